@@ -27,7 +27,9 @@ sys.path.insert(0, os.path.dirname(os.path.abspath(__file__)))
 from gen_common import REPO, OUT, ShapeError
 
 LEAN_TY = {"int": "Int", "dec": "Rat", "dec0": "Rat", "bool": "Bool", "str": "String", "tok": "String", "xdec": "Py.XDec",
-           "frame": "String → String → M Rat"}
+           "frame": "String → String → M Rat",
+           # a datetime / timedelta on the whole-second grid: seconds since an epoch / seconds (the trigger classes; sub-second parts are outside)
+           "time": "Int", "delta": "Int", "trange": "Int × Int", "unit": "Unit"}
 
 
 def lean_ty(t):
@@ -35,6 +37,10 @@ def lean_ty(t):
         return " × ".join(("(" + lean_ty(x) + ")") if isinstance(x, tuple) else lean_ty(x) for x in t[1])
     if isinstance(t, tuple) and t[0] == "dict":
         return f"List (String × {lean_ty(t[1])})"
+    if isinstance(t, tuple) and t[0] == "opt":
+        return f"Option ({lean_ty(t[1])})"
+    if isinstance(t, tuple) and t[0] == "list":
+        return f"List ({lean_ty(t[1])})"
     return LEAN_TY[t]
 
 
@@ -100,6 +106,7 @@ class Fn:
         self.ntmp = 0
         self.uses_cx = False
         self.uses_pow = False
+        self.uses_fuel = False
         self.used_reads = {}
         self.ret_types = []
         self.ret = None
@@ -143,6 +150,12 @@ class Fn:
             return f"(decide ({term}))"
         fail(node, f"a {ty} where a bool is needed")
 
+    def val(self, a, ta, ind):
+        """an Optional used as a value: None raises TypeError in CPython (`None < x`, `None + x`)"""
+        if isinstance(ta, tuple) and ta[0] == "opt":
+            return self.effect(ind, f"Py.unwrap {a}", ta[1])
+        return a, ta
+
     # ---------------------------------------------------------------- expressions
     def effect(self, ind, action, ty):
         """bind the result of a monadic action to a fresh temporary"""
@@ -152,10 +165,10 @@ class Fn:
 
     def expr(self, n, env, ind):
         """returns (lean term, type); emits `let t ← …` lines for the raising sub-operations, in evaluation order"""
-        if self.unit.reads and isinstance(n, (ast.Attribute, ast.Subscript, ast.Call)):
+        if self.unit.cur_reads and isinstance(n, (ast.Attribute, ast.Subscript, ast.Call)):
             key = ast.unparse(n)
-            if key in self.unit.reads:      # an input of the function, named by its exact source text (see Unit.reads)
-                name, ty = self.unit.reads[key]
+            if key in self.unit.cur_reads:      # an input of the function, named by its exact source text (see Unit.reads)
+                name, ty = self.unit.cur_reads[key]
                 self.used_reads[name] = ty
                 return name, ty
         if isinstance(n, ast.Constant):
@@ -165,6 +178,8 @@ class Fn:
                 return f"({n.value} : Int)", "int"
             if type(n.value) is str:
                 return '"' + n.value.replace("\\", "\\\\").replace('"', '\\"') + '"', "str"
+            if n.value is None:
+                return "none", "none"
             if type(n.value) is float and n.value == n.value and abs(n.value) != float("inf"):
                 # a float literal: usable only as an operand of a comparison with a Decimal / int, which CPython decides on the exact
                 # binary value of the float (no rounding, no context)
@@ -182,7 +197,7 @@ class Fn:
             fail(n, f"name '{n.id}' is not a (definitely assigned) local, parameter or known constant")
         if isinstance(n, ast.Attribute):
             # ClassName.CONST
-            if isinstance(n.value, ast.Name) and n.value.id == self.unit.cls and n.attr in self.consts:
+            if isinstance(n.value, ast.Name) and n.value.id == self.unit.cur_cls and n.attr in self.consts:
                 return self.consts[n.attr]
             # frame.loc[row].column
             v = n.value
@@ -192,6 +207,8 @@ class Fn:
                 if tk not in ("str", "tok"):
                     fail(n, f".loc[] with a {tk} row key")
                 return self.effect(ind, f'{v.value.value.id} {k} "{n.attr}"', "dec")
+            if n.attr in ("start", "end") and isinstance(n.value, ast.Name) and env.get(n.value.id) == "trange":
+                return f"{n.value.id}.{1 if n.attr == 'start' else 2}", "time"     # TimeRange(start, end)
             if n.attr == "name":
                 a, ta = self.expr(n.value, env, ind)
                 if ta == "tok":
@@ -220,6 +237,9 @@ class Fn:
             left, tl = self.expr(n.left, env, ind)
             for op, rn in zip(n.ops, n.comparators):
                 right, tr = self.expr(rn, env, ind)
+                if not isinstance(op, (ast.Is, ast.IsNot)):
+                    left, tl = self.val(left, tl, ind)
+                    right, tr = self.val(right, tr, ind)
                 terms.append(self.compare(n, op, left, tl, right, tr))
                 left, tl = right, tr
             return ("(" + " ∧ ".join(terms) + ")" if len(terms) > 1 else terms[0]), "prop"
@@ -271,6 +291,19 @@ class Fn:
                 if ta == "prop": a, ta = self.as_bool(a, ta, e), "bool"
                 parts.append(a); tys.append(ta)
             return "(" + ", ".join(parts) + ")", ("tuple", tys)
+        if isinstance(n, ast.ListComp):
+            if len(n.generators) != 1 or n.generators[0].ifs or n.generators[0].is_async or not isinstance(n.generators[0].target, ast.Name):
+                fail(n, "list comprehension with several generators, a filter or a tuple target")
+            g = n.generators[0]
+            l, tl = self.expr(g.iter, env, ind)
+            if not (isinstance(tl, tuple) and tl[0] == "list"):
+                fail(n, f"list comprehension over a {tl}")
+            env2 = dict(env); env2[g.target.id] = tl[1]
+            mark = len(self.lines)
+            e, te = self.expr(n.elt, env2, ind)
+            if len(self.lines) != mark:
+                fail(n, "list comprehension whose element expression can raise")
+            return f"({l}.map (fun {g.target.id} => {e}))", ("list", te)
         if isinstance(n, ast.Call):
             return self.call(n, env, ind)
         if isinstance(n, ast.Subscript):
@@ -285,6 +318,12 @@ class Fn:
 
     def compare(self, n, op, a, ta, b, tb):
         sym = {ast.Lt: "<", ast.LtE: "≤", ast.Gt: ">", ast.GtE: "≥", ast.Eq: "=", ast.NotEq: "≠"}.get(type(op))
+        if isinstance(op, (ast.Is, ast.IsNot)):
+            if tb == "none" and isinstance(ta, tuple) and ta[0] == "opt":
+                return f"({a} = none)" if isinstance(op, ast.Is) else f"({a} ≠ none)"
+            fail(n, f"`is` between {ta} and {tb} (only `<optional> is [not] None`)")
+        if isinstance(op, (ast.In, ast.NotIn)) and isinstance(tb, tuple) and tb[0] == "list" and ta == tb[1] and ta in ("time", "int", "delta"):
+            return f"({a} ∈ {b})" if isinstance(op, ast.In) else f"(¬ ({a} ∈ {b}))"
         if isinstance(op, (ast.In, ast.NotIn)):
             # `k in d` / `k in d.keys()` : b was compiled from the right operand
             if isinstance(tb, tuple) and tb[0] in ("dict", "keys") and ta in ("tok", "str"):
@@ -297,6 +336,10 @@ class Fn:
         if tb == "prop": b, tb = self.as_bool(b, tb, n), "bool"
         if ta == "dec0": ta = "dec"       # comparisons are exact: int 0 and Decimal 0 compare alike
         if tb == "dec0": tb = "dec"
+        if ta == tb and ta in ("time", "delta"):          # datetimes / timedeltas on the second grid compare as their second counts
+            return f"({a} {sym} {b})"
+        if {ta, tb} == {"delta", "int"}:                  # delta.total_seconds() against an int literal
+            return f"({a} {sym} {b})"
         if "fconst" in (ta, tb):           # Decimal/int against a float literal: exact comparison of the two values
             if ta == tb or not {ta, tb} <= {"fconst", "dec", "int"}:
                 fail(n, f"comparison {sym} between {ta} and {tb}")
@@ -315,6 +358,12 @@ class Fn:
         op = n.op
         a, ta = self.expr(n.left, env, ind)
         b, tb = self.expr(n.right, env, ind)
+        a, ta = self.val(a, ta, ind)
+        b, tb = self.val(b, tb, ind)
+        if {ta, tb} <= {"time", "delta"} and "delta" in (ta, tb) and isinstance(op, ast.Add):
+            return f"({a} + {b})", ("time" if "time" in (ta, tb) else "delta")     # datetime + timedelta, timedelta + timedelta
+        if ta in ("delta",) and tb == "int" and isinstance(op, ast.Mod) and const_value(n.right) not in (None, 0):
+            return f"(Int.fmod {a} {b})", "int"                                     # delta.total_seconds() % 60
         cb = const_value(n.right)
         if cb is None:
             rn = n.right
@@ -389,7 +438,7 @@ class Fn:
         fname = None
         if isinstance(f, ast.Name):
             fname = f.id
-        elif isinstance(f, ast.Attribute) and isinstance(f.value, ast.Name) and f.value.id == self.unit.cls:
+        elif isinstance(f, ast.Attribute) and isinstance(f.value, ast.Name) and f.value.id == self.unit.cur_cls:
             fname = f.attr       # ClassName.static_method(...)
         # ---- builtins
         if isinstance(f, ast.Name) and fname not in self.unit.sigs:
@@ -415,6 +464,16 @@ class Fn:
                 if ta == "int": return f"(Py.iabs {a})", "int"
                 if ta == "dec": return f"(Py.dabs {self.cx()} {a})", "dec"
                 fail(n, f"abs() of a {ta}")
+            if fname == "datetime" and len(args) == 5 and all(isinstance(x, ast.Attribute) and isinstance(x.value, ast.Name) for x in args) \
+                    and [x.attr for x in args] == ["year", "month", "day", "hour", "minute"] and len({x.value.id for x in args}) == 1 \
+                    and env.get(args[0].value.id) == "time":
+                # datetime(t.year, t.month, t.day, t.hour, t.minute): the same instant with seconds and below dropped (recognised idiom)
+                return f"(Py.floorMinute {args[0].value.id})", "time"
+            if fname == "max" and len(args) == 1:
+                l, tl = self.expr(args[0], env, ind)
+                if isinstance(tl, tuple) and tl[0] == "list" and tl[1] in ("time", "int", "delta"):
+                    return self.effect(ind, f"Py.listMax {l}", tl[1])            # ValueError on an empty list
+                fail(n, f"max() of a {tl}")
             if fname in ("min", "max"):
                 if len(args) != 2: fail(n, f"{fname}() with other than two arguments")
                 a, ta = self.expr(args[0], env, ind)
@@ -437,6 +496,10 @@ class Fn:
         if isinstance(f, ast.Attribute) and fname is None:
             if f.attr == "quantize":
                 return self.quantize(n, env, ind)
+            if f.attr == "total_seconds" and not n.args:
+                d, td = self.expr(f.value, env, ind)
+                if td == "delta":
+                    return d, "delta"       # whole seconds (the subset's timedeltas live on the second grid)
             if f.attr == "keys" and not n.args:
                 d, td = self.expr(f.value, env, ind)
                 if isinstance(td, tuple) and td[0] == "dict":
@@ -533,8 +596,13 @@ class Fn:
         else:
             d, td = self.expr(it, env, ind)
             kind = "keys"
+        if isinstance(td, tuple) and td[0] == "list" and kind == "keys" and isinstance(target, ast.Name):
+            env2 = dict(env)
+            env2[target.id] = td[1]
+            self.iter_term = d
+            return target.id, env2
         if not (isinstance(td, tuple) and td[0] == "dict"):
-            fail(n, f"iteration over a {td} (only dicts are iterable in the subset)")
+            fail(n, f"iteration over a {td} (only dicts and lists are iterable in the subset)")
         env2 = dict(env)
         if kind == "items":
             if not (isinstance(target, ast.Tuple) and len(target.elts) == 2 and all(isinstance(e, ast.Name) for e in target.elts)):
@@ -647,17 +715,53 @@ class Fn:
                 pat, env2 = self.loop_header(s.target, s.iter, env, ind, s)
                 self.emit(ind, f"for {pat} in {self.iter_term} do")
                 for m in ast.walk(s):
-                    if isinstance(m, (ast.Return, ast.Break, ast.Continue)):
+                    if isinstance(m, (ast.Break, ast.Continue)) or (isinstance(m, ast.Return) and not self.unit.cur_opts.get("return_in_for")):
                         fail(m, f"{type(m).__name__.lower()} inside a for loop")
                 env_l, term_l = self.block(s.body, env2, ind + 1)
                 for k in env:
                     if env_l[k] != env[k]:
                         fail(s, f"variable '{k}' changes type inside the loop")
                 continue
+            if isinstance(s, ast.While):
+                self.while_loop(s, env, ind)
+                continue
             fail(s, f"statement {type(s).__name__}")
         if not emitted:
             self.emit(ind, "pure ()")
         return env, False
+
+    def while_loop(self, s, env, ind):
+        """`while c: body` ↦ `vars ← Py.whileFuel (fun vars => do …; pure (decide c)) (fun vars => do body; pure vars) fuel vars`: the variables the
+        body assigns are the loop state; `fuel : Nat` is a leading parameter of the generated function (running out of fuel with the condition
+        still true is `Err.Unsupported`, so the tie theorem states how much fuel suffices); the body may only assign existing variables"""
+        if s.orelse:
+            fail(s, "while/else")
+        names = []
+        for m in ast.walk(s):
+            if isinstance(m, (ast.Return, ast.Break, ast.Continue, ast.While)) and m is not s:
+                fail(m, f"{type(m).__name__.lower()} inside a while loop")
+            if isinstance(m, (ast.Assign, ast.AugAssign, ast.AnnAssign)):
+                for tg in (m.targets if isinstance(m, ast.Assign) else [m.target]):
+                    if not isinstance(tg, ast.Name) or tg.id not in env:
+                        fail(m, "a while body may only assign variables that exist before the loop")
+                    if tg.id not in names:
+                        names.append(tg.id)
+        if not names:
+            fail(s, "while loop that assigns nothing")
+        self.uses_fuel = True
+        pat = names[0] if len(names) == 1 else "(" + ", ".join(names) + ")"
+        for nm in names:
+            self.reassigned.add(nm)
+        self.emit(ind, f"{pat} ← Py.whileFuel (fun {pat} => do")
+        c, tc = self.expr(s.test, env, ind + 2)
+        self.emit(ind + 2, f"pure (decide {self.as_prop(c, tc, s)})) (fun {pat} => do")
+        for nm in names:
+            self.emit(ind + 2, f"let mut {nm} := {nm}")
+        env_b, term = self.block(s.body, env, ind + 2)
+        for nm in names:
+            if env_b[nm] != env[nm]:
+                fail(s, f"variable '{nm}' changes type inside the loop")
+        self.emit(ind + 2, f"pure {pat}) fuel {pat}")
 
     def conditional_assignment(self, s, cond, env, ind):
         """Normalisation N1:  `if c: x = e`  (no else, one assignment to already declared variables, `e` cannot raise)
@@ -756,6 +860,11 @@ class Fn:
                 and not self.lines[-1].strip().endswith("(do"):
             direct = self.lines.pop().strip()[len(f"let {a} ← "):]
             self.ntmp -= 1
+        if name in env and isinstance(env[name], tuple) and env[name][0] == "opt":
+            if ta == "none":
+                ta = env[name]
+            elif ta == env[name][1]:
+                a, ta = f"(some {a})", env[name]
         if name in env:
             if isinstance(ta, str) and isinstance(env[name], str) and {env[name], ta} == {"dec", "dec0"}:
                 env[name] = ta = "dec0"
@@ -776,7 +885,7 @@ class Fn:
             probe.mut = {n.id for n in ast.walk(self.fdef) if isinstance(n, ast.Name)} | {p for p, _ in self.params}
             probe.set_ret = lambda ty, node: probe.ret_types.append(ty)      # pass 1 only collects the return types
             probe.translate()
-            self.mut = probe.reassigned
+            self.mut = probe.reassigned | {v for v, _ in (self.unit.cur_state or {}).values()}
             rts = set(map(repr, probe.ret_types))
             if len(rts) > 1:
                 kinds = set(probe.ret_types) if all(isinstance(t, str) for t in probe.ret_types) else None
@@ -787,11 +896,22 @@ class Fn:
         env = {}
         for p, t in self.params:
             env[p] = t
-            if p in self.mut:
+            if p in self.mut and t != "obj":      # an 'obj' parameter is reachable only through the read table: it has no binder
                 self.emit(1, f"let mut {p} := {p}")
         env_out, term = self.block(self.fdef.body, env, 1)
         if not term:
-            fail(self.fdef, "control can reach the end of the function (returns None)")
+            st = self.unit.cur_state
+            if st and not self.ret_types:
+                # a method that only updates its fields and falls off the end: the fields on exit
+                names = [v for v, _ in st.values()]
+                tys = [t for _, t in st.values()]
+                self.set_ret(tys[0] if len(tys) == 1 else ("tuple", tys), self.fdef)
+                self.emit(1, "return " + (names[0] if len(names) == 1 else "(" + ", ".join(names) + ")"))
+            elif not self.ret_types and not st:
+                self.set_ret("unit", self.fdef)       # a procedure: returns None on every path
+                self.emit(1, "return ()")
+            else:
+                fail(self.fdef, "control can reach the end of the function (returns None) while other paths return a value")
         return self.lines, self.ret, self.uses_cx, self.uses_pow
 
 
@@ -812,11 +932,14 @@ class _StateRewriter(ast.NodeTransformer):
         return self.generic_visit(node)
 
     def visit_Return(self, node):
+        names = [ast.Name(id=v, ctx=ast.Load()) for v, _ in self.state.values()]
         if isinstance(node.value, ast.Name) and node.value.id == "self":
-            names = [ast.Name(id=v, ctx=ast.Load()) for v, _ in self.state.values()]
             node.value = names[0] if len(names) == 1 else ast.Tuple(elts=names, ctx=ast.Load())
             return node
-        return self.generic_visit(node)
+        node = self.generic_visit(node)
+        if node.value is not None:          # `return e` of a method with fields: the value and the fields on exit
+            node.value = ast.Tuple(elts=[node.value] + names, ctx=ast.Load())
+        return node
 
 
 class Unit:
@@ -835,19 +958,21 @@ class Unit:
         # source the expression is no longer recognised and the translation fails loudly)
         self.reads = reads or {}
         self.auto_consts = {}
+        self.cur_reads, self.cur_cls, self.cur_state, self.cur_opts = self.reads, self.cls, self.state, {}
         self.uses = []           # other units whose translated functions may be called (their generated module is imported)
         self.sigs = {}
         self.const_values = {}
 
-    def find(self, tree, name):
+    def find(self, tree, name, cls=None):
         body = tree.body
-        if self.cls:
+        cls = cls if cls is not None else self.cls
+        if cls:
             for n in tree.body:
-                if isinstance(n, ast.ClassDef) and n.name == self.cls:
+                if isinstance(n, ast.ClassDef) and n.name == cls:
                     body = n.body
                     break
             else:
-                raise ShapeError(f"class {self.cls} not found")
+                raise ShapeError(f"class {cls} not found")
         for n in body:
             if isinstance(n, ast.FunctionDef) and n.name == name:
                 return n, body
@@ -925,24 +1050,31 @@ class Unit:
         self.auto_consts = self.literal_constants(tree)
         for u in self.uses:
             self.sigs.update(u.sigs)
-        for name, ptypes in self.funcs:
-            self.sigs[name] = Sig(name, self.prefix + name, list(ptypes.items()))
+        # an entry of `funcs` is (name, {param: type}) or (name, {param: type}, opts): opts may give this function its own class ("cls"),
+        # read table ("reads"), fields ("state"), generated name ("as") and switches ("return_in_for")
+        entries = [(f[0], f[1], (f[2] if len(f) > 2 else {})) for f in self.funcs]
+        self.funcs = [(o.get("as", n), pt) for n, pt, o in entries]
+        for (n, pt, o) in entries:
+            key = o.get("as", n)
+            self.sigs[key] = Sig(key, self.prefix + key, list(pt.items()))
         consts = {}
-        for name, ptypes in self.funcs:
+        for src_name, ptypes, opts in entries:
+            name = opts.get("as", src_name)
             sig = self.sigs[name]
+            self.cur_cls, self.cur_reads, self.cur_state, self.cur_opts = opts.get("cls", self.cls), opts.get("reads", self.reads), opts.get("state", self.state), opts
             try:
-                fdef, body = self.find(tree, name)
+                fdef, body = self.find(tree, src_name, self.cur_cls)
                 if not consts and self.const_names:
                     consts = self.read_consts(body)
                     consts.update(EXTERNAL_CONSTS)
                 a = fdef.args
                 if a.vararg or a.kwarg or a.kwonlyargs or (a.defaults and not self.allow_defaults) or a.posonlyargs:
                     fail(fdef, "defaults / *args / **kwargs in the signature")
-                if self.state:
-                    fdef = _StateRewriter(self.state).visit(copy.deepcopy(fdef))
+                if self.cur_state:
+                    fdef = _StateRewriter(self.cur_state).visit(copy.deepcopy(fdef))
                     ast.fix_missing_locations(fdef)
                 argnames = [x.arg for x in a.args]
-                if argnames and argnames[0] == "self" and self.cls:
+                if argnames and argnames[0] == "self" and self.cur_cls:
                     argnames = argnames[1:]          # a method: `self` is reachable only through Unit.reads
                 if argnames != list(ptypes):
                     fail(fdef, f"parameters {[x.arg for x in a.args]} differ from the translator's signature table {list(ptypes)}")
@@ -953,13 +1085,16 @@ class Unit:
                 for d in fdef.decorator_list:
                     if getattr(d, "id", None) != "staticmethod":
                         fail(fdef, "decorator other than @staticmethod")
-                fn = Fn(self, fdef, list(self.state.values()) + sig.params, consts or dict(EXTERNAL_CONSTS))
+                for x in a.args:
+                    if x.arg in ptypes and ptypes[x.arg] in ("time", "delta") and getattr(x.annotation, "id", None) not in (None, "datetime", "timedelta"):
+                        fail(fdef, f"parameter {x.arg} is annotated {getattr(x.annotation, 'id', None)}, the signature table says {ptypes[x.arg]}")
+                fn = Fn(self, fdef, list(self.cur_state.values()) + sig.params, consts or dict(EXTERNAL_CONSTS))
                 lines, ret, uses_cx, uses_pow = fn.translate()
                 sig.ret, sig.uses_cx, sig.uses_pow = ret, uses_cx, uses_pow
-                sig.reads = [(nm, ty) for nm, ty in self.reads.values() if nm in fn.used_reads] + list(self.state.values())
-                binders = ("(cx : NumCtx) " if uses_cx else "") + ("(dpow : Rat → Nat → Rat) " if uses_pow else "") \
-                    + "".join(f"({nm} : {lean_ty(ty)}) " for nm, ty in sig.reads) + " ".join(f"({p} : {lean_ty(t)})" for p, t in sig.params)
-                head = f"/-- `{self.src}` line {fdef.lineno}: `{name}` -/\ndef {sig.lean_name} {binders} : M ({lean_ty(ret)}) := do"
+                sig.reads = [(nm, ty) for nm, ty in self.cur_reads.values() if nm in fn.used_reads] + list(self.cur_state.values())
+                binders = ("(cx : NumCtx) " if uses_cx else "") + ("(dpow : Rat → Nat → Rat) " if uses_pow else "") + ("(fuel : Nat) " if fn.uses_fuel else "") \
+                    + "".join(f"({nm} : {lean_ty(ty)}) " for nm, ty in sig.reads) + " ".join(f"({p} : {lean_ty(t)})" for p, t in sig.params if t != "obj")
+                head = f"/-- `{self.src}` line {fdef.lineno}: `{(self.cur_cls + '.') if self.cur_cls else ''}{src_name}` -/\ndef {sig.lean_name} {binders} : M ({lean_ty(ret)}) := do"
                 defs.append(head + "\n" + "\n".join(lines))
             except ShapeError as e:
                 sig.ret = None
@@ -1057,6 +1192,29 @@ BROKER_TYPING = Unit("BrokerTyping", "demeter/broker/_typing.py", [
     ("sub", {"amount": D, "allow_negative_balance": B}),
 ], cls="Asset", prefix="asset_", state={"self.balance": ("balance", D)}, allow_defaults=True)
 UNITS.append(BROKER_TYPING)
+
+
+TM, DL = "time", "delta"
+_NOW = {"snapshot.timestamp": ("now", TM)}
+TRIGGER = Unit("Trigger", "demeter/strategy/trigger.py", [
+    ("to_minute", {"time": TM}, {"cls": None}),
+    ("_check_time_delta", {"delta": DL}, {"cls": None, "as": "check_time_delta"}),
+    ("when", {"snapshot": "obj"}, {"cls": "AtTimeTrigger", "as": "at_time_when", "reads": dict(_NOW, **{"self._time": ("t", TM)})}),
+    ("is_out_date", {"t": TM}, {"cls": "AtTimeTrigger", "as": "at_time_is_out_date", "reads": {"self._time": ("t0", TM)}}),
+    ("when", {"snapshot": "obj"}, {"cls": "AtTimesTrigger", "as": "at_times_when", "reads": dict(_NOW, **{"self._time": ("ts", ("list", TM))})}),
+    ("is_out_date", {"t": TM}, {"cls": "AtTimesTrigger", "as": "at_times_is_out_date", "reads": {"self._time": ("ts", ("list", TM))}}),
+    ("when", {"snapshot": "obj"}, {"cls": "TimeRangeTrigger", "as": "range_when",
+                                        "reads": dict(_NOW, **{"self._time_range.start": ("s", TM), "self._time_range.end": ("e", TM)})}),
+    ("is_out_date", {"t": TM}, {"cls": "TimeRangeTrigger", "as": "range_is_out_date", "reads": {"self._time_range.end": ("e", TM)}}),
+    ("when", {"snapshot": "obj"}, {"cls": "TimeRangesTrigger", "as": "ranges_when", "return_in_for": True,
+                                        "reads": dict(_NOW, **{"self._time_range": ("rs", ("list", "trange"))})}),
+    ("is_out_date", {"t": TM}, {"cls": "TimeRangesTrigger", "as": "ranges_is_out_date", "reads": {"self._time_range": ("rs", ("list", "trange"))}}),
+    ("when", {"snapshot": "obj"}, {"cls": "PeriodTrigger", "as": "period_when", "state": {"self._next_match": ("next_match", ("opt", TM))},
+                                        "reads": dict(_NOW, **{"self._delta": ("delta", DL), "self._pending": ("pending", DL),
+                                                               "self._trigger_immediately": ("trigger_immediately", B)})}),
+    ("reset", {}, {"cls": "PeriodTrigger", "as": "period_reset", "state": {"self._next_match": ("next_match", ("opt", TM))}, "reads": {}}),
+], prefix="trig_")
+UNITS.append(TRIGGER)
 
 
 BASELINE = os.path.join(os.path.dirname(os.path.abspath(__file__)), "gen_baseline")
